@@ -26,10 +26,12 @@ EXPLANATION = ('Theorems (Props/C11.v): the Gallina model of the environ / timeo
                'maps; corollaries: no backward effect, act sees the act set and others the non-act set, expansion '
                'against a declarative substitution, timeout / cd forward.  The model is tied to the code on every '
                'run by real test cases with probe processes.')
-ASSUMPTIONS = ['what a child process sees is observed with probe programs (sh+env, perl); that a child changing its '
+ASSUMPTIONS = ['the timeout in force is observed as the `timeout` argument of the wait on the child process (subprocess.Popen.wait, '
+               'wrapped by the harness for the duration of a run; fallback: the value handed to the command executor); for the '
+               'boundary value 0 the harness records it and then waits without limit, so that the probe can report - what '
+               'happens when a timeout expires is C19',
+               'what a child process sees is observed with probe programs (sh+env, perl); that a child changing its '
                'own directory does not change the parent is an operating system fact, observed only',
-               'the timeout in force is observed as the value handed to the command executor, not by letting processes '
-               'time out (that is C19)',
                'values are constant strings, or the output of a program printing a constant string; values taken from files / here-documents are outside the model',
                'the variable PWD, which dash exports by itself, is removed from what shell probes report',
                'the program computing the value of `env NAME = -stdout-from PROGRAM` is observed as a process too: the timeout handed '
@@ -143,7 +145,7 @@ def gen_ops(rng, phase, n, sim):
                 ops.append(['cd', 'act', ['.']])
                 sim['cwd'] = ['act']
         elif k < 80:
-            ops.append(['timeout', None if rng.chance(0.2) else rng.randint(30, 999)])
+            ops.append(['timeout', rng.weighted([(None, 4), (0, 3), (rng.randint(30, 999), 13)])])  # 0: the legal boundary value
         elif k < 87:
             ops.append(['childcd', 'cwd', rng.choice([['d1'], ['..'], ['d2'], ['e1'], ['..', '..']])])
         else:
@@ -270,15 +272,24 @@ class Runner:
         runner = self
         self.log = []
 
+        self.n_at_wait = self.n_fallback = 0
+        self.waits = []  # the `timeout` argument of every subprocess.Popen.wait() made during a run (see run())
+
         class Recording(CommandExecutor):
             def execute(self, command, settings, files):
                 before = set(os.listdir(runner.out))
+                first_wait = len(runner.waits)
                 try:
                     return real.execute(command, settings, files)
                 finally:
                     new = sorted(set(os.listdir(runner.out)) - before)
-                    runner.log.append((settings.timeout_in_seconds,
-                                       None if settings.environ is None else dict(settings.environ), new))
+                    # the timeout that REACHES the process: the argument of the wait on the child (subprocess.call ->
+                    # Popen.wait); if the program did not wait through Popen.wait, the value handed to the executor
+                    at_wait = len(runner.waits) > first_wait
+                    runner.n_at_wait += 1 if at_wait else 0
+                    runner.n_fallback += 0 if at_wait else 1
+                    effective = runner.waits[first_wait] if at_wait else settings.timeout_in_seconds
+                    runner.log.append((effective, None if settings.environ is None else dict(settings.environ), new))
 
         recording_os_services = os_services_access.new_for_cmd_exe(Recording())
 
@@ -304,16 +315,32 @@ class Runner:
         for fn in os.listdir(self.sbx):
             shutil.rmtree(os.path.join(self.sbx, fn), ignore_errors=True)
         self.log.clear()
+        self.n_at_wait = self.n_fallback = 0
         path = os.path.join(self.home, 'c.case')
         with open(path, 'w', encoding='utf-8') as f:
             f.write(render_case(case, self.out, self.perl_script))
         saved = dict(os.environ)
         os.environ.clear()
         os.environ.update(case['default'])
+        # Observe the timeout at the last point before the operating system: the argument of Popen.wait (subprocess.call
+        # passes its `timeout` there).  The boundary value 0 would stop every probe before it can report; what happens
+        # when a timeout expires is C19's subject, so for 0 - and only after having recorded it - the wait is made
+        # without limit, and the probe reports the environment / directory it was started with as for any other value.
+        import subprocess
+        original_wait = subprocess.Popen.wait
+        waits = self.waits
+        del waits[:]
+
+        def recording_wait(popen, timeout=None):
+            waits.append(timeout)
+            return original_wait(popen, timeout=None if timeout == 0 else timeout)
+
+        subprocess.Popen.wait = recording_wait
         try:
             r = impl.run_main(self.mp, [path], self.home, self.root)
             environ_after = dict(os.environ)
         finally:
+            subprocess.Popen.wait = original_wait
             os.environ.clear()
             os.environ.update(saved)
         points = []
@@ -336,6 +363,7 @@ class Runner:
         return {'exit': r.exit_code, 'stdout': r.out.strip(), 'stderr': r.err[-600:] if r.exit_code != 0 else '',
                 'exception': repr(r.exception) if r.exception else None,
                 'environ_of_exactly_unchanged': environ_after == case['default'],
+                'timeouts_observed_at_wait': self.n_at_wait, 'timeouts_observed_at_command_executor_only': self.n_fallback,
                 'points': points, 'child_cwd': child}
 
     def _env(self, tag):
@@ -500,6 +528,12 @@ CORPUS = [
         'before_assert': [['timeout', None], ['envprog', 'both', 'D', '${C}${B}'], ['probe', 1]],
         'assert': [['timeout', 52], ['envprog', 'act', 'E', 'e'], ['envprog', 'nonact', 'E', 'e'], ['probe', 0]],
         'cleanup': [['cd', 'tmp', ['t1']], ['envprog', 'both', 'F', 'f'], ['probe', 2]]}},
+    # the boundary value timeout = 0 reaches every later process (act included) until the next timeout instruction
+    {'default': {}, 'act_probe': 0, 'phases': {
+        'setup': [['probe', 0], ['timeout', 0], ['probe', 0], ['envprog', 'both', 'A', 'a'], ['probe', 1]],
+        'before_assert': [['probe', 2], ['childcd', 'cwd', ['d1']], ['probe', 0]],
+        'assert': [['timeout', None], ['probe', 0], ['timeout', 0], ['probe', 1]],
+        'cleanup': [['probe', 0], ['timeout', 45], ['probe', 0]]}},
     # both sets modified independently before any probe; self reference
     {'default': {'A': 'i'}, 'act_probe': 1, 'phases': {
         'setup': [['env', 'act', 'set', 'A', '${A}+act'], ['env', 'nonact', 'set', 'A', '${A}+non'],
@@ -708,6 +742,9 @@ def run(ctx, res):
         for f in features(c):
             res.count('feature ' + f)
         res.count('probes observed', len(o['points']))
+        res.count('processes whose timeout was observed at Popen.wait', o['timeouts_observed_at_wait'])
+        res.count('processes whose timeout was observed only at the command executor', o['timeouts_observed_at_command_executor_only'])
+        res.count('processes observed under timeout = 0', sum(1 for p in o['points'] if p[3] == 0))
         res.count('run ended with a failure' if o['exit'] != 0 else 'run ended with PASS')
         cwd_by_tag = {p[0]: p[2] for p in o['points']}
         for tag, ccwd in o['child_cwd'].items():
